@@ -200,7 +200,8 @@ fn legit_tokens(path: &[&CmdSpec], level: &CmdSpec) -> HashSet<String> {
     }
     if level.settings.flatten_help {
         fn add_tree(c: &CmdSpec, add: &mut dyn FnMut(&str)) {
-            for a in c.args.iter().filter(|a| !a.hide) {
+            // (hidden but required arguments of a descendant still show in its usage line)
+            for a in c.args.iter() {
                 add(&a.id);
                 if let Some(l) = &a.long {
                     add(l);
@@ -208,8 +209,10 @@ fn legit_tokens(path: &[&CmdSpec], level: &CmdSpec) -> HashSet<String> {
                 for v in &a.value_names {
                     add(v);
                 }
-                for t in [&a.help, &a.long_help].into_iter().flatten() {
-                    add(t);
+                if !a.hide {
+                    for t in [&a.help, &a.long_help].into_iter().flatten() {
+                        add(t);
+                    }
                 }
             }
             for sc in c.subs.iter().filter(|s| !s.hide) {
